@@ -57,6 +57,7 @@ pub fn compile_case(v: &Value) -> Value {
                     let text = match s.as_str() {
                         "core_json" => serde_json::to_string(&c.core).unwrap(),
                         "go_dbg" => format!("{:?}", c.go),
+                        "effects" => crate::effects::trace(&c.go),
                         "structs_json" => {
                             let mut m = serde_json::Map::new();
                             for (name, def) in c.genv.structs().iter() {
